@@ -783,40 +783,43 @@ Theorem C16_zsh_lookup_exact : forall c b n,
 Proof. exact parser_of_exact. Qed.
 Print Assumptions C16_zsh_lookup_exact.
 
-(** total: for every [linked] tree with a bin name no [expect] fires and the recursion through [parser_of] ends *)
-Theorem C16_zsh_total : forall bl c d b, c_bin c = Some b -> linked c -> exists s, zsh_script bl c d = Some s.
+(** total: for every [linked] tree with a bin name whose conflicts resolve where the generator asks (round 4: the
+    [panic!] / [expect] of [Command::get_arg_conflicts_with] is a visible [None] of the model; [cres_below]: for the command
+    the lookup returns for each subcommand, with its parent) no [expect] fires and the recursion through [parser_of] ends *)
+Theorem C16_zsh_total : forall c d b,
+  c_bin c = Some b -> linked c -> conflicts_resolve c None = true -> cres_below c -> exists s, zsh_script c d = Some s.
 Proof. exact zsh_total. Qed.
 Print Assumptions C16_zsh_total.
 
-Theorem C16_zsh_deterministic : forall bl c d s1 s2, zsh_script bl c d = Some s1 -> zsh_script bl c d = Some s2 -> s1 = s2.
+Theorem C16_zsh_deterministic : forall c d s1 s2, zsh_script c d = Some s1 -> zsh_script c d = Some s2 -> s1 = s2.
 Proof. exact zsh_deterministic. Qed.
 Print Assumptions C16_zsh_deterministic.
 
 (** in the class the recursion through the lookup computes a function that is structural in the tree ... *)
-Theorem C16_zsh_sections_structural : forall bl f p d pb,
-  c_bin p = Some pb -> linked p -> nospace p -> sibling_names p -> (depth p <= f)%nat ->
-  get_subcommands_of bl f p d = Some (zspec_subs bl p d).
+Theorem C16_zsh_sections_structural : forall f p d pb,
+  c_bin p = Some pb -> linked p -> nospace p -> sibling_names p -> cres_below p -> (depth p <= f)%nat ->
+  get_subcommands_of f p d = Some (zspec_subs p d).
 Proof. exact get_subcommands_of_spec. Qed.
 Print Assumptions C16_zsh_sections_structural.
 
 (** ... namely: one [case] block per command that has subcommands, with one arm per name and visible alias of every
     subcommand; the arm = its label, the [_arguments] block of THAT subcommand, the section of that subcommand *)
-Theorem C16_zsh_section_shape : forall bl p d,
-  zspec_subs bl p d =
+Theorem C16_zsh_section_shape : forall p d,
+  zspec_subs p d =
   if is_nil (c_subs p) then [] else
   zcase_block (c_name p) (space_to_hyphen (bin_or_default p)) (dec (N.of_nat (List.length (get_positionals p)) + 1))
     (zjoin znl (flat_map (fun q : cmd * cdesc =>
-                   map (arm (args_block bl (fst q) (snd q) (Some p)) (zspec_subs bl (fst q) (snd q)))
+                   map (arm (args_block (fst q) (snd q) (Some p)) (zspec_subs (fst q) (snd q)))
                        (get_name_and_visible_aliases (fst q)))
                 (zipd cd0 (c_subs p) (cd_subs d)))).
 Proof. exact zspec_subs_unfold. Qed.
 Print Assumptions C16_zsh_section_shape.
 
 (** the whole file in the class *)
-Theorem C16_zsh_script_shape : forall bl c d b,
+Theorem C16_zsh_script_shape : forall c d b,
   zsh_ok c b ->
   exists details, zsubcommand_details c d = Some details /\
-    zsh_pieces bl c d = Some ([Zx (script_head b)] ++ args_block bl c d None ++ zspec_subs bl c d
+    zsh_pieces c d = Some ([Zx (script_head b)] ++ args_block c d None ++ zspec_subs c d
                            ++ [Zx (lf ++ [125] ++ lf ++ lf)] ++ details ++ [Zx (script_tail b)]).
 Proof. exact zsh_pieces_shape. Qed.
 Print Assumptions C16_zsh_script_shape.
@@ -824,15 +827,15 @@ Print Assumptions C16_zsh_script_shape.
 (** dispatch, every depth: for EVERY path of names or visible aliases the file contains the arm label of the last word
     followed by the [_arguments] block of the node the path leads to (it sits in the arm of the word before, and so on:
     [C16_zsh_section_shape]); every [reach] path is such a path *)
-Theorem C16_zsh_path_block : forall bl c d b ws n nd par,
+Theorem C16_zsh_path_block : forall c d b ws n nd par,
   zsh_ok c b -> dreach c d ws n nd par ->
-  exists s, zsh_script bl c d = Some s /\
-    sublist (zrender ([Zx ([40] ++ last ws [] ++ [41])] ++ znl ++ args_block bl n nd (Some par))) s.
+  exists s, zsh_script c d = Some s /\
+    sublist (zrender ([Zx ([40] ++ last ws [] ++ [41])] ++ znl ++ args_block n nd (Some par))) s.
 Proof. exact zsh_script_path. Qed.
 Print Assumptions C16_zsh_path_block.
 
-Theorem C16_zsh_root_block : forall bl c d b,
-  zsh_ok c b -> exists s, zsh_script bl c d = Some s /\ sublist (zrender (args_block bl c d None)) s.
+Theorem C16_zsh_root_block : forall c d b,
+  zsh_ok c b -> exists s, zsh_script c d = Some s /\ sublist (zrender (args_block c d None)) s.
 Proof. exact zsh_script_root. Qed.
 Print Assumptions C16_zsh_root_block.
 
@@ -843,12 +846,12 @@ Print Assumptions C16_zsh_reach_is_path.
 
 (** one level: the block of a command has a spec line for every spelling [get_short_and_visible_aliases] /
     [get_long_and_visible_aliases] return for an option (hidden ones included) ... *)
-Theorem C16_zsh_block_options : forall bl c d g a ad,
+Theorem C16_zsh_block_options : forall c d g a ad,
   c_bin c <> None -> In (a, ad) (zipd ad0 (c_args c) (cd_args d)) -> is_opt (a, ad) = true ->
   (forall shorts s, get_short_and_visible_aliases a = Some shorts -> In s shorts ->
-     sublist (opt_short_line bl c g (a, ad) s) (args_block bl c d g)) /\
+     sublist (opt_short_line c g (a, ad) s) (args_block c d g)) /\
   (forall longs l, get_long_and_visible_aliases a = Some longs -> In l longs ->
-     sublist (opt_long_line bl c g (a, ad) l) (args_block bl c d g)).
+     sublist (opt_long_line c g (a, ad) l) (args_block c d g)).
 Proof. exact block_options. Qed.
 Print Assumptions C16_zsh_block_options.
 
@@ -863,9 +866,9 @@ Proof. exact option_spellings_complete. Qed.
 Print Assumptions C16_zsh_option_spellings.
 
 (** ... a line for the short, every visible short alias, the long and every visible alias of a flag ... *)
-Theorem C16_zsh_block_flags : forall bl c d g a ad dashes name,
+Theorem C16_zsh_block_flags : forall c d g a ad dashes name,
   c_bin c <> None -> In (a, ad) (zipd ad0 (c_args c) (cd_args d)) -> is_flag (a, ad) = true ->
-  In (dashes, name) (flag_spellings a) -> sublist (zflag_line bl c g (a, ad) dashes name) (args_block bl c d g).
+  In (dashes, name) (flag_spellings a) -> sublist (zflag_line c g (a, ad) dashes name) (args_block c d g).
 Proof. exact block_flag_lines. Qed.
 Print Assumptions C16_zsh_block_flags.
 
@@ -877,20 +880,21 @@ Theorem C16_zsh_flag_spellings : forall a,
 Proof. exact flag_spellings_complete. Qed.
 Print Assumptions C16_zsh_flag_spellings.
 
-(** ... a line for every positional that takes at most one value ... *)
-Theorem C16_zsh_block_positionals : forall bl c d g a ad,
+(** ... a line for every positional that takes at most one value and is not [last] (round 4; the exact rule:
+    [C16_zsh_positionals_exact] / [_kept] / [_last]) ... *)
+Theorem C16_zsh_block_positionals : forall c d g a ad,
   c_bin c <> None -> In (a, ad) (zipd ad0 (c_args c) (cd_args d)) -> a_is_positional a = true ->
-  (1 <? a_max_values a)%N = false ->
-  exists card, sublist (positional_line card (a, ad)) (args_block bl c d g).
+  (1 <? a_max_values a)%N = false -> a_last a = false ->
+  exists card, sublist (positional_line card (a, ad)) (args_block c d g).
 Proof. exact block_positional_line. Qed.
 Print Assumptions C16_zsh_block_positionals.
 
 (** ... every non-hidden possible value on every line of an option that REQUIRES a value ([min_values() <> 0]; the
     recorded finding [zsh-optional-value] is the boundary) and on the line of a positional: raw in the [(v1 v2)] form,
     through escape_value in the [((v\:"help" ...))] form ... *)
-Theorem C16_zsh_option_values : forall bl c g a ad vs pv line,
+Theorem C16_zsh_option_values : forall c g a ad vs pv line,
   a_min_values a <> 0%N -> possible_values a = Some vs -> In pv vs -> pv_hide pv = false ->
-  In line (opt_lines bl c g (a, ad)) ->
+  In line (opt_lines c g (a, ad)) ->
   exists x, In (Zx x) line /\ (sublist (pv_name pv) x \/ sublist (zsh_escape_value (pv_name pv)) x).
 Proof. exact opt_line_values. Qed.
 Print Assumptions C16_zsh_option_values.
@@ -904,26 +908,26 @@ Print Assumptions C16_zsh_positional_values.
 
 (** ... and, when the command has subcommands, the two lines that lead to them: the [_..._commands] function and the
     state that selects the [case] block *)
-Theorem C16_zsh_block_subcommands : forall bl c d g,
+Theorem C16_zsh_block_subcommands : forall c d g,
   c_bin c <> None -> has_subcommands c = true ->
   sublist [Zx ([34; 58; 58; 32; 58; 95] ++ space_to_dd (bin_or_default c) ++ [95; 99; 111; 109; 109; 97; 110; 100; 115; 34; 32; 92])]
-          (args_block bl c d g) /\
-  sublist [Zx ([34; 42; 58; 58; 58; 32; 58; 45; 62] ++ c_name c ++ [34; 32; 92])] (args_block bl c d g).
+          (args_block c d g) /\
+  sublist [Zx ([34; 42; 58; 58; 58; 32; 58; 45; 62] ++ c_name c ++ [34; 32; 92])] (args_block c d g).
 Proof. exact block_subcommand_lines. Qed.
 Print Assumptions C16_zsh_block_subcommands.
 
 (** the arm of every name and visible alias of every subcommand is in the section of its parent *)
-Theorem C16_zsh_arms : forall bl p d sc sd w,
+Theorem C16_zsh_arms : forall p d sc sd w,
   In (sc, sd) (zipd cd0 (c_subs p) (cd_subs d)) -> In w (sc_words sc) ->
-  sublist (arm (args_block bl sc sd (Some p)) (zspec_subs bl sc sd) w) (zspec_subs bl p d).
+  sublist (arm (args_block sc sd (Some p)) (zspec_subs sc sd) w) (zspec_subs p d).
 Proof. exact arm_in_section. Qed.
 Print Assumptions C16_zsh_arms.
 
 (** the [_..._commands] functions: for EVERY node of the tree the file has the function named after its bin name, and
     its list has an entry ['name:about'] for every name and visible alias of every subcommand of that node *)
-Theorem C16_zsh_commands_functions : forall bl c d b n,
+Theorem C16_zsh_commands_functions : forall c d b n,
   zsh_ok c b -> (n = c \/ desc c n) ->
-  exists s nd, zsh_script bl c d = Some s /\
+  exists s nd, zsh_script c d = Some s /\
     sublist (zrender (commands_function (bin_or_default n) (subcommands_of n nd))) s.
 Proof. exact zsh_script_commands. Qed.
 Print Assumptions C16_zsh_commands_functions.
@@ -948,15 +952,15 @@ Print Assumptions C16_zsh_ok_nonvacuous.
 (** ... and there the arm [(add-all)] carries the block of [add-all], the arm [(x)] reached through the alias [a] of
     [add] the block of [x] *)
 Theorem C16_zsh_paths_nonvacuous :
-  exists s, zsh_script bl0 zx_root cd0 = Some s /\
-    sublist (zrender ([Zx [40; 97; 100; 100; 45; 97; 108; 108; 41]] ++ znl ++ args_block bl0 zx_add_all cd0 (Some zx_root))) s /\
-    sublist (zrender ([Zx [40; 120; 41]] ++ znl ++ args_block bl0 (zx_leaf [120] [112; 32; 97; 100; 100; 32; 120]) cd0 (Some zx_add))) s.
+  exists s, zsh_script zx_root cd0 = Some s /\
+    sublist (zrender ([Zx [40; 97; 100; 100; 45; 97; 108; 108; 41]] ++ znl ++ args_block zx_add_all cd0 (Some zx_root))) s /\
+    sublist (zrender ([Zx [40; 120; 41]] ++ znl ++ args_block (zx_leaf [120] [112; 32; 97; 100; 100; 32; 120]) cd0 (Some zx_add))) s.
 Proof. exact zsh_example_paths. Qed.
 Print Assumptions C16_zsh_paths_nonvacuous.
 
 (** class boundaries.  [zsh-optional-value]: an option with [num_args(0..=1)] and the possible value [zz]: no [zz] in the file *)
 Theorem C16_zsh_optional_value_refuted :
-  exists c d b s a vs pv, zsh_ok c b /\ zsh_script bl0 c d = Some s /\ In a (c_args c) /\ a_is_positional a = false /\
+  exists c d b s a vs pv, zsh_ok c b /\ zsh_script c d = Some s /\ In a (c_args c) /\ a_is_positional a = false /\
     possible_values a = Some vs /\ In pv vs /\ pv_hide pv = false /\ a_min_values a = 0%N /\
     ~ sublist (pv_name pv) s.
 Proof. exact zsh_optional_value_refuted. Qed.
@@ -964,7 +968,7 @@ Print Assumptions C16_zsh_optional_value_refuted.
 
 (** [alias-without-primary]: a visible short alias [x] of an option without a short: no [-x] in the file *)
 Theorem C16_zsh_alias_without_primary_refuted :
-  exists c d b s a, zsh_ok c b /\ zsh_script bl0 c d = Some s /\ In a (c_args c) /\ In ([120], true) (a_short_aliases a) /\
+  exists c d b s a, zsh_ok c b /\ zsh_script c d = Some s /\ In a (c_args c) /\ In ([120], true) (a_short_aliases a) /\
     ~ sublist [45; 120] s.
 Proof. exact zsh_alias_without_primary_refuted. Qed.
 Print Assumptions C16_zsh_alias_without_primary_refuted.
@@ -974,7 +978,7 @@ Print Assumptions C16_zsh_alias_without_primary_refuted.
 Theorem C16_zsh_space_in_name_refuted :
   linked zs_root /\ sibling_names zs_root /\ ~ nospace zs_root /\ desc zs_root zs_ab /\
   parser_of zs_root (bin_or_default zs_ab) = Some zs_b /\
-  exists s, zsh_script bl0 zs_root cd0 = Some s /\ ~ sublist [45; 120; 91] s.
+  exists s, zsh_script zs_root cd0 = Some s /\ ~ sublist [45; 120; 91] s.
 Proof. exact zsh_space_in_name_refuted. Qed.
 Print Assumptions C16_zsh_space_in_name_refuted.
 (** the same for the command tree AS THE USER WROTE IT ([Complete/ZshBuildProofs.v]): [BuildLinked.nb c] = no subcommand carries
@@ -983,25 +987,117 @@ Print Assumptions C16_zsh_space_in_name_refuted.
     (= [set_bin_name] + [build] + generator) writes a script for EVERY such tree, every assignment of texts and every
     non-empty bin name: [build] does not run out of fuel, no [expect] fires, the recursion ends *)
 From ClapModel Require Import Complete.ZshBuildProofs.
-Theorem C16_zsh_generate_total : forall bl c d bin,
-  BuildLinked.nb c = true -> bin <> [] -> exists s, generate_zsh bl c d bin = Some s.
+Theorem C16_zsh_generate_total : forall c d bin,
+  BuildLinked.nb c = true -> bin <> [] -> NushellLexProofs.args_all no_bl c = true -> exists s, generate_zsh c d bin = Some s.
 Proof. exact generate_zsh_total. Qed.
 Print Assumptions C16_zsh_generate_total.
 
-Theorem C16_zsh_generate_is_built : forall bl c d bin b,
-  build (set_bin_name c bin) = Some b -> generate_zsh bl c d bin = zsh_script bl b (dbuild (set_bin_name c bin) d).
+(** round 4: with [conflicts_with] declarations the hypothesis is on the BUILT tree: its conflicts resolve ([cres]; the
+    local boolean class [conflicts_local] at every node gives it: [C16_zsh_total_local]) *)
+Theorem C16_zsh_generate_total_resolved : forall c d bin,
+  BuildLinked.nb c = true -> bin <> [] ->
+  (forall b, build (set_bin_name c bin) = Some b -> conflicts_resolve b None = true /\ cres_below b) ->
+  exists s, generate_zsh c d bin = Some s.
+Proof. exact generate_zsh_total_resolved. Qed.
+Print Assumptions C16_zsh_generate_total_resolved.
+
+Theorem C16_zsh_generate_is_built : forall c d bin b,
+  build (set_bin_name c bin) = Some b -> generate_zsh c d bin = zsh_script b (dbuild (set_bin_name c bin) d).
 Proof. exact generate_zsh_is_built. Qed.
 Print Assumptions C16_zsh_generate_is_built.
-(** the exclusion list [(-x --exclude ...)] at the head of an option / flag spec ([conflicts_with]; [bl c a] = the
-    blacklist of the argument, a parameter of the model): for a non-global argument the spellings -- short, then long --
-    of the arguments the blacklist names, IN THE ORDER OF THE BLACKLIST *)
-Theorem C16_zsh_conflicts_list : forall bl c a g,
-  a_global a = false ->
-  arg_conflicts bl c a g =
-  (if is_nil (filter_map (find_arg c) (bl c a)) then []
-   else [40] ++ intercalate [32] (push_conflicts (filter_map (find_arg c) (bl c a))) ++ [41]).
+(** round 4: the exclusion list [(-x --exclude ...)] at the head of an option / flag spec.  [Arg::blacklist] is a field of
+    the argument now ([a_blacklist]); an entry names an argument or a GROUP of the command.  For a non-global argument whose
+    entries all resolve ([conflict_targets]): the spellings -- short, then long -- of what the entries resolve to, IN THE
+    ORDER OF THE BLACKLIST, whatever the parent *)
+Theorem C16_zsh_conflicts_list : forall c a g ls,
+  a_global a = false -> map_opt (conflict_targets c) (a_blacklist a) = Some ls ->
+  arg_conflicts_opt c a g = Some (conflicts_text (List.concat ls)) /\
+  arg_conflicts c a g = conflicts_text (List.concat ls).
 Proof. exact conflicts_list. Qed.
 Print Assumptions C16_zsh_conflicts_list.
+
+(** ... an entry that names an argument resolves to it; an entry that names a GROUP (and no argument) resolves to the
+    MEMBERS of the group in argument order (class: the argument ids of the command are pairwise distinct -- clap's
+    configuration check); an entry fails to resolve exactly when it names neither (the [panic!]): the nested-group
+    branch of [unroll_args_in_group] and the [expect] on its members are dead *)
+Theorem C16_zsh_conflicts_groups :
+  (forall c id y, find_arg c id = Some y -> conflict_targets c id = Some [y]) /\
+  (forall x id, NoDup (map a_id (c_args x)) -> find_arg x id = None -> find_group x id = true ->
+     conflict_targets x id = Some (filter (in_group id) (c_args x))) /\
+  (forall x id, conflict_targets x id <> None <-> (is_some (find_arg x id) || find_group x id)%bool = true) /\
+  (forall x g, exists ids, unroll_args_in_group x g = Some ids /\ exists l, map_opt (find_arg x) ids = Some l).
+Proof. exact (conj conflict_targets_arg (conj conflict_targets_group (conj conflict_targets_resolves unroll_total))). Qed.
+Print Assumptions C16_zsh_conflicts_groups.
+
+(** round 4, value names: every line of an option that REQUIRES a value carries [:vn:] (followed by the value completion),
+    [vn] = the first value name of the argument, a blank when it has none *)
+Theorem C16_zsh_option_value_name : forall c g a ad line,
+  a_min_values a <> 0%N -> In line (opt_lines c g (a, ad)) ->
+  exists val, zvalue_completion (a, ad) = Some val /\
+    In (Zx ([58] ++ value_name a ++ [58])) line /\
+    value_name a = match a_value_names a with [] => [32] | v :: _ => v end.
+Proof. exact opt_line_value_name. Qed.
+Print Assumptions C16_zsh_option_value_name.
+
+(** the panic sites of [arg_conflicts] are hoisted into [get_args_of]: it fails exactly through the bin name of a command
+    with subcommands or through an unresolvable conflict of one of the command's options / flags *)
+Theorem C16_zsh_args_fail_only_on_conflicts : forall c d g,
+  (conflicts_resolve c g = true -> get_args_of c d g = args_body c d g) /\
+  (conflicts_resolve c g = false -> get_args_of c d g = None) /\
+  (c_bin c <> None -> args_body c d g <> None).
+Proof. intros c d g. exact (conj (get_args_of_guard c d g) (conj (get_args_of_unresolved c d g) (args_body_total c d g))). Qed.
+Print Assumptions C16_zsh_args_fail_only_on_conflicts.
+
+(** the LOCAL boolean class in which nothing panics: every blacklist entry of an option / flag names an argument of its
+    command, or -- when the option / flag is not global -- a group of its command.  Resolution for a command written below
+    its parent (or the root) ... *)
+Theorem C16_zsh_conflicts_local : forall m g,
+  conflicts_local m = true -> (forall p, g = Some p -> In m (c_subs p)) -> conflicts_resolve m g = true.
+Proof. exact conflicts_local_resolve. Qed.
+Print Assumptions C16_zsh_conflicts_local.
+
+(** ... the local class spelled out = clap's configuration check ([id_exists]: argument or group, for every entry) AND every
+    entry of a GLOBAL option / flag names an ARGUMENT: the second conjunct is the class that excludes the [expect] ... *)
+Theorem C16_zsh_conflicts_local_meaning : forall m,
+  conflicts_local m = true <->
+  forall a, In a (c_args m) -> a_is_positional a = false -> forall id, In id (a_blacklist a) ->
+    (is_some (find_arg m id) || find_group m id)%bool = true /\ (a_global a = true -> is_some (find_arg m id) = true).
+Proof. exact conflicts_local_meaning. Qed.
+Print Assumptions C16_zsh_conflicts_local_meaning.
+
+(** ... so a tree in the exact-lookup class with the local class at every node is in [zsh_ok] and the generator writes a
+    script: TOTAL for that class ... *)
+Theorem C16_zsh_total_local : forall c d b,
+  c_bin c = Some b -> linked c -> nospace c -> sibling_names c ->
+  (forall n, (n = c \/ desc c n) -> conflicts_local n = true) ->
+  zsh_ok c b /\ exists s, zsh_script c d = Some s.
+Proof. intros c d b H1 H2 H3 H4 H5. exact (conj (zsh_ok_local c b H1 H2 H3 H4 H5) (zsh_total_local c d b H1 H2 H3 H4 H5)). Qed.
+Print Assumptions C16_zsh_total_local.
+
+(** ... non-vacuous, with a group: [--c] conflicts with the group [g1] = {a, b} and with [a]; the exclusion list is the
+    members in argument order, then [a]; the line is in the file *)
+Theorem C16_zsh_conflicts_group_example :
+  zsh_ok zc_root [112] /\ NoDup (map a_id (c_args zc_root)) /\
+  conflict_targets zc_root [103; 49] = Some [zc_a; zc_b] /\
+  arg_conflicts zc_root zc_c None = [40; 45; 45; 97; 32; 45; 45; 98; 98; 32; 45; 45; 97; 41] /\
+  exists s, zsh_script zc_root cd0 = Some s /\
+    sublist [39; 40; 45; 45; 97; 32; 45; 45; 98; 98; 32; 45; 45; 97; 41; 45; 45; 99; 91; 93; 39; 32; 92] s.
+Proof. exact zsh_conflicts_group_example. Qed.
+Print Assumptions C16_zsh_conflicts_group_example.
+
+(** ... and the boundary = finding [zsh-global-conflicts-group]: clap's configuration check ([id_exists]: every blacklist
+    entry names an argument or a group of its command) accepts a GLOBAL argument that conflicts with a GROUP, the lookup
+    of [get_global_arg_conflicts_with] consults arguments only and [expect]s: a one-node tree in every other class of the
+    zsh theorems for which the generator writes NO script, whatever the texts (replayed: the real generator panics) *)
+Theorem C16_zsh_global_conflicts_group_refuted :
+  exists c b,
+    c_bin c = Some b /\ linked c /\ nospace c /\ sibling_names c /\
+    (forall n, (n = c \/ desc c n) -> forall a, In a (c_args n) -> forall id, In id (a_blacklist a) ->
+       (is_some (find_arg n id) || find_group n id)%bool = true) /\
+    conflicts_local c = false /\
+    forall d, zsh_script c d = None.
+Proof. exact zsh_global_conflicts_group_refuted. Qed.
+Print Assumptions C16_zsh_global_conflicts_group_refuted.
 (* ---- end zsh generator model ---- *)
 
 (* ---- Command::build and the tree the user wrote (round 3) ---- *)
@@ -1067,14 +1163,80 @@ Print Assumptions C16_extends_node.
     [help] where clap generates one -- those theorems speak about the file [generate_zsh] writes *)
 Theorem C16_zsh_build_ok : forall c bin b,
   BuildLinked.nb c = true -> bin <> [] -> nospace c -> siblings_ok c -> BuildSkeleton.help_free false c = true ->
+  NushellLexProofs.args_all no_bl c = true ->
   build (set_bin_name c bin) = Some b -> zsh_ok b bin.
 Proof. exact build_zsh_ok. Qed.
 Print Assumptions C16_zsh_build_ok.
 
-Theorem C16_zsh_generate_ok : forall bl c d bin,
+(** round 4: [args_all no_bl] = no argument of the user's tree declares a conflict ([build] keeps that: the generated
+    arguments declare none); with conflicts the hypothesis is that they resolve on the built tree *)
+Theorem C16_zsh_build_ok_resolved : forall c bin b,
   BuildLinked.nb c = true -> bin <> [] -> nospace c -> siblings_ok c -> BuildSkeleton.help_free false c = true ->
+  build (set_bin_name c bin) = Some b -> conflicts_resolve b None = true -> cres_below b -> zsh_ok b bin.
+Proof. exact build_zsh_ok_resolved. Qed.
+Print Assumptions C16_zsh_build_ok_resolved.
+
+(** round 4, [Complete/ZshBuildConflicts.v]: the class ON THE USER'S TREE for trees that DO declare conflicts.
+    [conflicts_declared_ok l]: in the argument list [l] of a command, an argument that declares conflicts is not global and
+    every entry of its blacklist names an argument or a group of [l]; [cdo_all]: at every command of the tree.  [build] keeps
+    it -- it only appends arguments (help, version, the parent's global arguments) and in the class all of them have an empty
+    blacklist -- and it implies the local class at every node of the built tree, hence [zsh_ok]: exact lookup, dispatch,
+    coverage and totality for the file [generate_zsh] writes *)
+From ClapModel Require Complete.ZshBuildConflicts.
+Theorem C16_zsh_build_keeps_conflicts_class : forall c b,
+  build c = Some b -> ZshBuildConflicts.cdo_all c = true ->
+  ZshBuildConflicts.cdo_all b = true /\ forall n, (n = b \/ desc b n) -> conflicts_local n = true.
+Proof.
+  intros c b Hb Hc. pose proof (ZshBuildConflicts.ca_build c b Hb Hc) as H.
+  exact (conj H (fun n Hn => ZshBuildConflicts.ca_local b n H Hn)).
+Qed.
+Print Assumptions C16_zsh_build_keeps_conflicts_class.
+
+Theorem C16_zsh_conflicts_class_meaning : forall c,
+  (ZshBuildConflicts.cdo_all c = true <->
+     ZshBuildConflicts.conflicts_declared_ok (c_args c) = true /\ forall sc, In sc (c_subs c) -> ZshBuildConflicts.cdo_all sc = true) /\
+  ZshBuildConflicts.conflicts_declared_ok (c_args c) =
+    forallb (fun a => (is_nil (a_blacklist a)
+                       || (negb (a_global a)
+                           && forallb (fun id => (is_some (find (fun y => beq (a_id y) id) (c_args c))
+                                                  || existsb (in_group id) (c_args c))%bool) (a_blacklist a)))%bool)
+            (c_args c) /\
+  (NushellLexProofs.args_all no_bl c = true -> ZshBuildConflicts.cdo_all c = true).
+Proof. intros c. exact (conj (ZshBuildConflicts.ca_iff c) (conj eq_refl (ZshBuildConflicts.ca_no_bl c))). Qed.
+Print Assumptions C16_zsh_conflicts_class_meaning.
+
+Theorem C16_zsh_build_ok_conflicts : forall c bin b,
+  BuildLinked.nb c = true -> bin <> [] -> nospace c -> siblings_ok c -> BuildSkeleton.help_free false c = true ->
+  ZshBuildConflicts.cdo_all c = true ->
+  build (set_bin_name c bin) = Some b -> zsh_ok b bin.
+Proof. exact ZshBuildConflicts.build_zsh_ok_conflicts. Qed.
+Print Assumptions C16_zsh_build_ok_conflicts.
+
+Theorem C16_zsh_generate_ok_conflicts : forall c d bin,
+  BuildLinked.nb c = true -> bin <> [] -> nospace c -> siblings_ok c -> BuildSkeleton.help_free false c = true ->
+  ZshBuildConflicts.cdo_all c = true ->
   exists b s, build (set_bin_name c bin) = Some b /\ zsh_ok b bin /\
-              generate_zsh bl c d bin = Some s /\ zsh_script bl b (dbuild (set_bin_name c bin) d) = Some s.
+              generate_zsh c d bin = Some s /\ zsh_script b (dbuild (set_bin_name c bin) d) = Some s.
+Proof. exact ZshBuildConflicts.generate_zsh_ok_conflicts. Qed.
+Print Assumptions C16_zsh_generate_ok_conflicts.
+
+(** satisfiable: a global flag, a group [g1] = {a, b}, [--c] conflicting with the group and with [a], in the root and in a
+    subcommand; not conflict-free; the file has the exclusion list and the propagated global flag *)
+Theorem C16_zsh_generate_ok_conflicts_nonvacuous :
+  BuildLinked.nb ZshBuildConflicts.zu_root = true /\ nospace ZshBuildConflicts.zu_root /\ siblings_ok ZshBuildConflicts.zu_root /\
+  BuildSkeleton.help_free false ZshBuildConflicts.zu_root = true /\ ZshBuildConflicts.cdo_all ZshBuildConflicts.zu_root = true /\
+  NushellLexProofs.args_all no_bl ZshBuildConflicts.zu_root = false /\
+  exists s, generate_zsh ZshBuildConflicts.zu_root cd0 [112] = Some s /\
+    binfix [39; 40; 45; 45; 97; 32; 45; 45; 98; 98; 32; 45; 45; 97; 41; 45; 45; 99; 91; 93; 39; 32; 92] s = true /\
+    binfix [39; 45; 45; 118; 101; 114; 98; 111; 115; 101; 91; 93; 39; 32; 92] s = true.
+Proof. exact ZshBuildConflicts.generate_zsh_ok_conflicts_example. Qed.
+Print Assumptions C16_zsh_generate_ok_conflicts_nonvacuous.
+
+Theorem C16_zsh_generate_ok : forall c d bin,
+  BuildLinked.nb c = true -> bin <> [] -> nospace c -> siblings_ok c -> BuildSkeleton.help_free false c = true ->
+  NushellLexProofs.args_all no_bl c = true ->
+  exists b s, build (set_bin_name c bin) = Some b /\ zsh_ok b bin /\
+              generate_zsh c d bin = Some s /\ zsh_script b (dbuild (set_bin_name c bin) d) = Some s.
 Proof. exact generate_zsh_ok. Qed.
 Print Assumptions C16_zsh_generate_ok.
 
@@ -1082,6 +1244,7 @@ Print Assumptions C16_zsh_generate_ok.
     through the alias, with the user's option, and the generated [help add x] *)
 Theorem C16_zsh_generate_ok_nonvacuous :
   BuildLinked.nb zx_user = true /\ nospace zx_user /\ siblings_ok zx_user /\ BuildSkeleton.help_free false zx_user = true /\
+  NushellLexProofs.args_all no_bl zx_user = true /\
   exists b n m, build (set_bin_name zx_user [112]) = Some b /\
     reach b [[97]; [120]] [[97; 100; 100]; [120]] n /\ In zx_opt (c_args n) /\
     reach b [[104; 101; 108; 112]; [97; 100; 100]; [120]] [[104; 101; 108; 112]; [97; 100; 100]; [120]] m.
@@ -1286,10 +1449,10 @@ Theorem C16_zsh_build_keeps_tame : forall c bin b,
 Proof. exact ZshBuildTame.build_ztame. Qed.
 Print Assumptions C16_zsh_build_keeps_tame.
 
-Theorem C16_zsh_generate_same_skeleton : forall bl c d1 d2 bin s1,
+Theorem C16_zsh_generate_same_skeleton : forall c d1 d2 bin s1,
   ZshLexProofs.ztame_cmd c = true -> FishLexProofs.tame bin = true ->
-  FishLexProofs.erase_desc d1 = FishLexProofs.erase_desc d2 -> generate_zsh bl c d1 bin = Some s1 ->
-  exists s2, generate_zsh bl c d2 bin = Some s2 /\
+  FishLexProofs.erase_desc d1 = FishLexProofs.erase_desc d2 -> generate_zsh c d1 bin = Some s1 ->
+  exists s2, generate_zsh c d2 bin = Some s2 /\
     ShellLex.skeleton (ShellLex.events ShellLex.sh_step ShellLex.ZB s1) =
     ShellLex.skeleton (ShellLex.events ShellLex.sh_step ShellLex.ZB s2) /\
     ShellLex.final ShellLex.sh_step ShellLex.ZB s1 = ShellLex.final ShellLex.sh_step ShellLex.ZB s2.
@@ -1315,19 +1478,22 @@ Print Assumptions C16_zsh_generate_same_skeleton_nonvacuous.
     [export extern "bin n1 .. nk"] has a line of the argument starting with the spelling.
     Corollary of the six coverage theorems, [C16_user_paths_are_built_paths] and [C16_build_linked]. *)
 From ClapModel Require Complete.CrossShell.
-Theorem C16_six_generators_mention_the_same_spellings : forall up bl c t d bin b ws ns n a,
-  BuildLinked.nb c = true -> build (set_bin_name c bin) = Some b -> mangle_safe b bin ->
+(** round 4: [cres b] = no [arg_conflicts] call of the zsh generator panics on the built tree ([conflicts_resolve b None]
+    and [cres_below b]); trees without [conflicts_with] ([args_all no_bl], on the user's tree: the [_plain] form) and trees
+    with the local class at every built node ([C16_zsh_total_local]) have it *)
+Theorem C16_six_generators_mention_the_same_spellings : forall up c t d bin b ws ns n a,
+  BuildLinked.nb c = true -> build (set_bin_name c bin) = Some b -> mangle_safe b bin -> cres b ->
   reach c ws ns n -> In a (c_args n) -> a_is_positional a = false -> CrossShell.arg_has_primary a ->
   (forall s, CrossShell.spelled_short a s ->
      CrossShell.bash_mentions c bin ns ([45] ++ s) /\
-     CrossShell.zsh_mentions bl c d bin ws a (CrossShell.zsh_short_line bl a s) /\
+     CrossShell.zsh_mentions c d bin ws a (CrossShell.zsh_short_line a s) /\
      ((List.length ws <= 2)%nat -> CrossShell.fish_mentions_word c d bin ws (short_word s)) /\
      CrossShell.powershell_mentions up c t bin ws (PowershellProofs.ps_short up s) /\
      CrossShell.elvish_mentions c t bin ws (ElvishProofs.el_short s) /\
      CrossShell.nushell_mentions c d bin ns a (NushellProofs.mentions_short s)) /\
   (forall l, CrossShell.spelled_long a l ->
      CrossShell.bash_mentions c bin ns ([45; 45] ++ l) /\
-     CrossShell.zsh_mentions bl c d bin ws a (CrossShell.zsh_long_line bl a l) /\
+     CrossShell.zsh_mentions c d bin ws a (CrossShell.zsh_long_line a l) /\
      ((List.length ws <= 2)%nat -> CrossShell.fish_mentions_word c d bin ws (long_word l)) /\
      CrossShell.powershell_mentions up c t bin ws (PowershellProofs.ps_long l) /\
      CrossShell.elvish_mentions c t bin ws (ElvishProofs.el_long l) /\
@@ -1336,14 +1502,14 @@ Proof. exact CrossShell.six_generators_mention_spellings_conj. Qed.
 Print Assumptions C16_six_generators_mention_the_same_spellings.
 
 (** what the six predicates say (their definitions, as equivalences, so that the statement above can be read from this file) *)
-Theorem C16_six_mentions_meaning : forall up bl c t d bin ws ns a w word entry ok line,
+Theorem C16_six_mentions_meaning : forall up c t d bin ws ns a w word entry ok line,
   (CrossShell.bash_mentions c bin ns w <->
      exists b tb k, build (set_bin_name c bin) = Some b /\ bash_table b = Some tb /\ generate_bash c bin = Some (render tb) /\
                     lookup_case tb (fn_of (mangle bin) ns) = Some k /\ In w (k_opts k)) /\
-  (CrossShell.zsh_mentions bl c d bin ws a line <->
-     exists s n' nd g ad, generate_zsh bl c d bin = Some s /\
-       sublist (zrender ((if is_nil ws then [] else [Zx ([40] ++ last ws [] ++ [41])] ++ znl) ++ args_block bl n' nd g)) s /\
-       sublist (line n' g (a, ad)) (args_block bl n' nd g)) /\
+  (CrossShell.zsh_mentions c d bin ws a line <->
+     exists s n' nd g ad, generate_zsh c d bin = Some s /\
+       sublist (zrender ((if is_nil ws then [] else [Zx ([40] ++ last ws [] ++ [41])] ++ znl) ++ args_block n' nd g)) s /\
+       sublist (line n' g (a, ad)) (args_block n' nd g)) /\
   (CrossShell.fish_mentions_word c d bin ws word <->
      exists b n' lines basic fline,
        build (set_bin_name c bin) = Some b /\ generate_fish c d bin = fish_script b (dbuild (set_bin_name c bin) d) /\
@@ -1365,20 +1531,20 @@ Proof. exact CrossShell.six_mentions_meaning. Qed.
 Print Assumptions C16_six_mentions_meaning.
 
 (** for subcommand names without a hyphen every hypothesis is on the tree the user wrote *)
-Theorem C16_six_generators_mention_the_same_spellings_plain : forall up bl c t d bin ws ns n a,
+Theorem C16_six_generators_mention_the_same_spellings_plain : forall up c t d bin ws ns n a,
   BuildLinked.nb c = true -> dd_safe bin = true -> bin <> [] -> siblings_ok c -> BuildSkeleton.help_free false c = true ->
-  (forall m, desc c m -> BashUser.bash_name (c_name m) = true) ->
+  (forall m, desc c m -> BashUser.bash_name (c_name m) = true) -> ZshBuildConflicts.cdo_all c = true ->
   reach c ws ns n -> In a (c_args n) -> a_is_positional a = false -> CrossShell.arg_has_primary a ->
   (forall s, CrossShell.spelled_short a s ->
      CrossShell.bash_mentions c bin ns ([45] ++ s) /\
-     CrossShell.zsh_mentions bl c d bin ws a (CrossShell.zsh_short_line bl a s) /\
+     CrossShell.zsh_mentions c d bin ws a (CrossShell.zsh_short_line a s) /\
      ((List.length ws <= 2)%nat -> CrossShell.fish_mentions_word c d bin ws (short_word s)) /\
      CrossShell.powershell_mentions up c t bin ws (PowershellProofs.ps_short up s) /\
      CrossShell.elvish_mentions c t bin ws (ElvishProofs.el_short s) /\
      CrossShell.nushell_mentions c d bin ns a (NushellProofs.mentions_short s)) /\
   (forall l, CrossShell.spelled_long a l ->
      CrossShell.bash_mentions c bin ns ([45; 45] ++ l) /\
-     CrossShell.zsh_mentions bl c d bin ws a (CrossShell.zsh_long_line bl a l) /\
+     CrossShell.zsh_mentions c d bin ws a (CrossShell.zsh_long_line a l) /\
      ((List.length ws <= 2)%nat -> CrossShell.fish_mentions_word c d bin ws (long_word l)) /\
      CrossShell.powershell_mentions up c t bin ws (PowershellProofs.ps_long l) /\
      CrossShell.elvish_mentions c t bin ws (ElvishProofs.el_long l) /\
@@ -1394,10 +1560,10 @@ Proof. exact CrossShell.six_generators_hyps. Qed.
 Print Assumptions C16_six_generators_nonvacuous.
 
 (** determinism of all six as one statement: functions of (command, texts, bin name); on the implementation: three generations *)
-Theorem C16_six_generators_deterministic : forall up bl c1 c2 t1 t2 d1 d2 b1 b2,
+Theorem C16_six_generators_deterministic : forall up c1 c2 t1 t2 d1 d2 b1 b2,
   c1 = c2 -> t1 = t2 -> d1 = d2 -> b1 = b2 ->
   generate_bash c1 b1 = generate_bash c2 b2 /\
-  generate_zsh bl c1 d1 b1 = generate_zsh bl c2 d2 b2 /\
+  generate_zsh c1 d1 b1 = generate_zsh c2 d2 b2 /\
   generate_fish c1 d1 b1 = generate_fish c2 d2 b2 /\
   PowershellModel.generate_powershell up c1 t1 b1 = PowershellModel.generate_powershell up c2 t2 b2 /\
   ElvishModel.generate_elvish c1 t1 b1 = ElvishModel.generate_elvish c2 t2 b2 /\
@@ -1417,23 +1583,52 @@ Theorem C16_zsh_positionals_exact : forall c d,
 Proof. exact ZshPositionals.write_positionals_exact. Qed.
 Print Assumptions C16_zsh_positionals_exact.
 
-(** ... where [pos_kept] is: with subcommands, all of them; without, everything up to and including the FIRST multi-valued
-    positional, then only the single-valued ones (a second catch-all is never written: the comment in zsh.rs) ... *)
+(** ... where [pos_kept] is: with subcommands, all of them; without, everything up to and including the FIRST catch-all (a
+    multi-valued positional WITHOUT a value terminator), then only the single-valued positionals that are not [last] (a
+    second catch-all is never written, a [last] positional after a catch-all is left to [_arguments -S]: the comment in
+    zsh.rs); while no catch-all was written nothing is skipped ... *)
 Theorem C16_zsh_positionals_kept :
   (forall l, ZshPositionals.pos_kept true false l = l) /\
-  (forall l1 p l2, Forall (fun q => ZshPositionals.multi q = false) l1 -> ZshPositionals.multi p = true ->
-     ZshPositionals.pos_kept false false (l1 ++ p :: l2) = l1 ++ p :: filter (fun q => negb (ZshPositionals.multi q)) l2) /\
-  (forall hs l ce, Forall (fun q => ZshPositionals.multi q = false) l -> ZshPositionals.pos_kept hs ce l = l).
+  (forall hs l1 p l2, existsb (ZshPositionals.catch_all hs) l1 = false -> ZshPositionals.catch_all hs p = true ->
+     ZshPositionals.pos_kept hs false (l1 ++ p :: l2) = l1 ++ p :: filter (fun q => negb (ZshPositionals.skipped q)) l2) /\
+  (forall hs l, existsb (ZshPositionals.catch_all hs) l = false -> ZshPositionals.pos_kept hs false l = l) /\
+  (forall hs l1 ce l2, ZshPositionals.pos_kept hs ce (l1 ++ l2) =
+     ZshPositionals.pos_kept hs ce l1 ++ ZshPositionals.pos_kept hs (ce || existsb (ZshPositionals.catch_all hs) l1) l2).
 Proof.
   exact (conj ZshPositionals.pos_kept_with_subcommands
-           (conj ZshPositionals.pos_kept_first_catch_all ZshPositionals.pos_kept_no_multi)).
+           (conj ZshPositionals.pos_kept_first_catch_all (conj ZshPositionals.pos_kept_no_catch_all ZshPositionals.pos_kept_app))).
 Qed.
 Print Assumptions C16_zsh_positionals_kept.
 
-(** ... and in the class clap's own configuration check accepts (at most one multi-valued positional when no argument carries
-    [last]; two of them: the harness answers INVALID) EVERY positional has its line *)
+(** round 4, the [last] positional (clap's configuration check wants it behind every other positional): it has its line iff
+    no catch-all was written before it; when it is single-valued the line carries [:] (optional) or nothing (required) *)
+Theorem C16_zsh_positionals_last : forall hs l p,
+  ZshPositionals.is_last p = true ->
+  ZshPositionals.pos_kept hs false (l ++ [p]) =
+  ZshPositionals.pos_kept hs false l ++ (if existsb (ZshPositionals.catch_all hs) l then [] else [p]).
+Proof. exact ZshPositionals.pos_kept_last. Qed.
+Print Assumptions C16_zsh_positionals_last.
+
+(** evaluated with the round-4 fields: [src] (1..3, terminator [;]), [dst] (1..3), [rest] ([last]) without subcommands: the
+    lines ['*;:...'] of [src] and the catch-all ['*:...'] of [dst], nothing for [rest]; behind a single-valued positional
+    [rest] has its line; a terminator with a blank is written through [escape_value] *)
+Theorem C16_zsh_positionals_last_example :
+  let l := [(ZshPositionals.zp_arg_x [115; 114; 99] 3 (Some [59]) false, ad0); (ZshPositionals.zp_arg_x [100; 115; 116] 3 None false, ad0);
+            (ZshPositionals.zp_arg_x [114; 101; 115; 116] 1 None true, ad0)] in
+  map (fun p => (a_id (fst p), ZshPositionals.pos_card false p)) (ZshPositionals.pos_kept false false l)
+  = [([115; 114; 99], [42; 59; 58]); ([100; 115; 116], [42; 58])] /\
+  map (fun p => a_id (fst p))
+      (ZshPositionals.pos_kept false false [(ZshPositionals.zp_arg_x [111; 110; 101] 1 None false, ad0);
+                                            (ZshPositionals.zp_arg_x [114; 101; 115; 116] 1 None true, ad0)])
+  = [[111; 110; 101]; [114; 101; 115; 116]] /\
+  ZshPositionals.pos_card false (ZshPositionals.zp_arg_x [115; 114; 99] 3 (Some [97; 32; 98]) false, ad0) = [42; 97; 92; 32; 98; 58].
+Proof. exact ZshPositionals.pos_kept_last_example. Qed.
+Print Assumptions C16_zsh_positionals_last_example.
+
+(** ... and when at most one positional is multi-valued or [last] (clap's own configuration check leaves such a tree
+    whenever no argument carries [last]: two multi-valued ones make the harness answer INVALID) EVERY positional has its line *)
 Theorem C16_zsh_positionals_valid : forall c d,
-  (List.length (filter ZshPositionals.multi (filter is_pos (zipd ad0 (c_args c) (cd_args d)))) <= 1)%nat ->
+  (List.length (filter ZshPositionals.skipped (filter is_pos (zipd ad0 (c_args c) (cd_args d)))) <= 1)%nat ->
   write_positionals_of c d =
   zjoin znl (map (fun p => positional_line (ZshPositionals.pos_card (has_subcommands c) p) p)
                  (filter is_pos (zipd ad0 (c_args c) (cd_args d)))).
@@ -1456,11 +1651,11 @@ Print Assumptions C16_zsh_positionals_example.
     two words) offers [ -a "w"] on a line starting with the path's condition; the PowerShell / elvish block keyed by the path
     has the entry of [w]; nushell declares the block [export extern "bin n1 .. nk name"] of the subcommand -- under its NAME
     (visible aliases of subcommands are not written by nushell: the recorded finding nushell-subcommand-aliases) *)
-Theorem C16_six_generators_mention_subcommands : forall up bl c t d bin b ws ns n sc w,
-  BuildLinked.nb c = true -> build (set_bin_name c bin) = Some b -> mangle_safe b bin ->
+Theorem C16_six_generators_mention_subcommands : forall up c t d bin b ws ns n sc w,
+  BuildLinked.nb c = true -> build (set_bin_name c bin) = Some b -> mangle_safe b bin -> cres b ->
   reach c ws ns n -> In sc (c_subs n) -> In w (get_name_and_visible_aliases sc) ->
   CrossShell.bash_mentions c bin ns w /\
-  CrossShell.zsh_lists_subcommand bl c d bin ns w /\
+  CrossShell.zsh_lists_subcommand c d bin ns w /\
   ((List.length ws <= 2)%nat -> CrossShell.fish_offers_subcommand c d bin ws w) /\
   CrossShell.powershell_mentions up c t bin ws (PowershellProofs.ps_sub w) /\
   CrossShell.elvish_mentions c t bin ws (ElvishProofs.el_sub w) /\
@@ -1468,10 +1663,10 @@ Theorem C16_six_generators_mention_subcommands : forall up bl c t d bin b ws ns 
 Proof. exact CrossShell.six_generators_mention_subcommands. Qed.
 Print Assumptions C16_six_generators_mention_subcommands.
 
-Theorem C16_six_subcommand_mentions_meaning : forall bl c d bin ws ns w,
-  (CrossShell.zsh_lists_subcommand bl c d bin ns w <->
+Theorem C16_six_subcommand_mentions_meaning : forall c d bin ws ns w,
+  (CrossShell.zsh_lists_subcommand c d bin ns w <->
      exists s nd n' about,
-       generate_zsh bl c d bin = Some s /\ bin_or_default n' = bin ++ join_with [32%N] ns /\
+       generate_zsh c d bin = Some s /\ bin_or_default n' = bin ++ join_with [32%N] ns /\
        sublist (zrender (commands_function (bin_or_default n') (subcommands_of n' nd))) s /\
        sublist (describe_entry about w) (subcommands_of n' nd)) /\
   (CrossShell.fish_offers_subcommand c d bin ws w <->
